@@ -45,7 +45,7 @@ CLAIMS = {
         'design_ref': 'DESIGN.md section 5, C11',
     },
     'C17': {
-        'text': 'C17.empty_call, hug_only_exact; on tokens (via C03.output_tokens, for every layout): C17.call_tokens / kw_tokens — the name, the positional arguments in order, then name = value for the keyword arguments in the order given, each argument with exactly the tokens it has when printed alone, between one pair of parentheses. Correspondence on objects printed through pretty_call_alt (0-3 positional, 0-2 keyword arguments, nested calls, commented arguments) alone and nested; oracle: eval rebuilds the same callable with arguments in order. Evaluation clause on tokens: C17.output_reads_back / call_denotes / kwargs_denote — the output of every layout reads back (reader of Spec/Reader.lean, tied to CPython's ast on every run) as the call of the name on the positional arguments in order followed by the keyword items in the order given. Dataclasses / attrs extras: the field selection is modelled (PP/Model/Fields.lean, parametric in the != of the user) and proved: C17.fields_shown_iff (a keyword argument is printed exactly for the fields with repr enabled that have no default or whose default != the value), fields_in_declaration_order, fields_rebuild (calling the class with the printed arguments stores in every repr field the same value or a default that != does not tell apart), hidden_field_rebuilt_from_default, instance_tokens; tied to /repo by sending generated class definitions with current values to the model, which selects the fields itself (cross-checked with the prescription computed from the class description).',
+        'text': 'C17.empty_call, hug_only_exact; on tokens (via C03.output_tokens, for every layout): C17.call_tokens / kw_tokens — the name, the positional arguments in order, then name = value for the keyword arguments in the order given, each argument with exactly the tokens it has when printed alone, between one pair of parentheses. Correspondence on objects printed through pretty_call_alt (0-3 positional, 0-2 keyword arguments, nested calls, commented arguments) alone and nested; oracle: eval rebuilds the same callable with arguments in order. Evaluation clause on tokens: C17.output_reads_back / call_denotes / kwargs_denote — the output of every layout reads back (reader of Spec/Reader.lean, tied to the ast module of CPython on every run) as the call of the name on the positional arguments in order followed by the keyword items in the order given. Dataclasses / attrs extras: the field selection is modelled (PP/Model/Fields.lean, parametric in the != of the user) and proved: C17.fields_shown_iff (a keyword argument is printed exactly for the fields with repr enabled that have no default or whose default != the value), fields_in_declaration_order, fields_rebuild (calling the class with the printed arguments stores in every repr field the same value or a default that != does not tell apart), hidden_field_rebuilt_from_default, instance_tokens; tied to /repo by sending generated class definitions with current values to the model, which selects the fields itself (cross-checked with the prescription computed from the class description).',
         'note': 'value-level end-to-end theorem (reader . pformatM = id / token invariance) is not proved yet: the claim rests on C04.sound_pformat (unconditional) for the engine, C02 for the splitter, the listed syntactic lemmas about the printer model, the model=code correspondence on SDoc streams, and the CPython oracle run on every implementation output',
         'technique': 'Lean 4 lemmas + differential correspondence + eval oracle',
         'design_ref': 'DESIGN.md section 5, C17',
